@@ -82,6 +82,14 @@ def dt_minutes_since_epoch(yt, m, d, minutes):
 
 
 NORM = EZP + '::normalizeDateTuple(ace_time::extended::DateTuple*)'
+# ghost function, DEFINED as days(yt, m, d) := the proleptic Gregorian day count cal.dfc_fields(yt, m, d); callers of the
+# date-tuple helpers reason about it opaquely, its definition is unfolded only where normalizeDateTuple itself is proved
+DAYS = z3.Function('tuple_days', z3.BitVecSort(8), z3.BitVecSort(8), z3.BitVecSort(8), z3.BitVecSort(64))
+
+
+def dt_minutes_abstract(yt, m, d, minutes):
+    return DAYS(yt, m, d) * 1440 + sx(minutes, 64)
+
 
 
 def _norm_pre(c):
@@ -97,13 +105,23 @@ def _norm_post(c):
     return [('minutes-normalised', z3.And(n[3] >= 0, n[3] < 1440)),
             ('still-a-valid-date', cal.valid_fields(n[0], n[1], n[2])),
             ('same-instant', dt_minutes_since_epoch(*n[:4]) == dt_minutes_since_epoch(*o[:4])),
+            ('same-instant-over-the-ghost-day-count', dt_minutes_abstract(*n[:4]) == dt_minutes_abstract(*o[:4])),
             ('suffix-kept', n[4] == o[4])]
 
 
-contract(NORM, props=['C07', 'C01', 'C04'], lang_requires=lambda c: [valid_ptr(c.ex, c.args[0], 6)], logic='int',
+def _norm_self_defs(c):
+    o = dt_fields(c.old, c.args[0])
+    n = dt_fields(c.new, c.args[0])
+    return [('def-days-old', DAYS(o[0], o[1], o[2]) == sx(cal.dfc_fields(o[0], o[1], o[2]), 64)),
+            ('def-days-new', DAYS(n[0], n[1], n[2]) == sx(cal.dfc_fields(n[0], n[1], n[2]), 64))]
+
+
+_norm_contract = contract(NORM, props=['C07', 'C01', 'C04'], lang_requires=lambda c: [valid_ptr(c.ex, c.args[0], 6)], logic='int',
          requires=_norm_pre, ensures=_norm_post, assigns=lambda c: [(c.args[0], 6)],
          cases=lambda c: [('neg', dt_fields(c.old, c.args[0])[3] < 0), ('day', z3.And(dt_fields(c.old, c.args[0])[3] >= 0, dt_fields(c.old, c.args[0])[3] < 1440)),
                           ('over', dt_fields(c.old, c.args[0])[3] >= 1440)])
+_norm_contract.self_defs = _norm_self_defs
+_norm_contract.private = ('same-instant',)     # callers use the equivalent clause over the ghost day count
 
 
 # ---- compareTransitionToMatchFuzzy ----------------------------------------------------------------------------
